@@ -90,7 +90,17 @@ func CopyTree(src, dst string) error {
 			if err != nil {
 				return err
 			}
-			return os.WriteFile(target, data, 0o644)
+			if err := os.WriteFile(target, data, 0o644); err != nil {
+				return err
+			}
+			// a copy of a world keeps what the files' clocks and modes say
+			if info, err := d.Info(); err == nil {
+				if info.Mode().Perm() != 0o644 {
+					_ = os.Chmod(target, info.Mode().Perm())
+				}
+				_ = os.Chtimes(target, info.ModTime(), info.ModTime())
+			}
+			return nil
 		}
 	})
 }
